@@ -149,6 +149,49 @@ def run(tier, seed):
                     obs_cases.append('OSimple %s %s %s %s %s' % (coq_bool(req), coq_str(ph), coq_z(v), coq_z(t), coq_bool(v in acc)))
                     obs_meta.append(dict(text=DECL + text, impl=r[1], shape='ShOneOf', value=v, threshold=t, accepted=v in acc, required=req, phrase=ph))
 
+    # both sides counted: 'the number of nodes is <phrase> the number of boxes' and 'between the number of boxes and the number of crates'
+    # (observations only: every combination of 0..3 nodes, boxes and crates)
+    decl2 = "A node is identified by an id, and has a weight.\nA box is identified by an id.\nA crate is identified by an id.\n"
+    choice2 = "{node(1..3,0)}. {box(1..3)}. {crate(1..3)}."
+
+    def counts(m):
+        return tuple(len([a for a in m if a.startswith(p + '(')]) for p in ('node', 'box', 'crate'))
+    for req in (False, True):
+        for ph in phs + ['between', 'between_number_first', 'between_number_second']:
+            if ph == 'between':
+                text = "It is %s that the number of nodes is between the number of boxes and the number of crates." % POL[req]
+            elif ph == 'between_number_first':
+                text = "It is %s that the number of nodes is between 1 and the number of crates." % POL[req]
+            elif ph == 'between_number_second':
+                text = "It is %s that the number of nodes is between the number of boxes and 2." % POL[req]
+            else:
+                text = "It is %s that the number of nodes is %s the number of boxes." % (POL[req], ph)
+            r = impl.compile_text(decl2 + text)
+            compiles += 1
+            rep.case(('ShAggAgg', req, ph))
+            if r[0] != 'ok':
+                rep.violation('compilation failed on a comparison between counted quantities', dict(text=decl2 + text, result=r))
+                continue
+            try:
+                models = solve.answer_sets(choice2 + '\n' + r[1])
+            except solve.SolveError as e:
+                rep.violation('clingo rejects the compiled constraint', dict(text=decl2 + text, impl=r[1], error=str(e)))
+                continue
+            acc = set(counts(m) for m in models)
+            for (n, b, c) in itertools.product(range(4), repeat=3):
+                if ph.startswith('between'):
+                    lo, hi = (1 if ph == 'between_number_first' else b), (2 if ph == 'between_number_second' else c)
+                    n_acc = len([x for x in acc if x[0] == n and (x[1] == b or ph == 'between_number_first') and (x[2] == c or ph == 'between_number_second')])
+                    total = (4 if ph == 'between_number_first' else 1) * (4 if ph == 'between_number_second' else 1)
+                    if n_acc not in (0, total):
+                        rep.violation('the verdict depends on a quantity the sentence does not mention', dict(text=decl2 + text, impl=r[1], nodes=n, boxes=b, crates=c))
+                        continue
+                    obs_cases.append('OBetween %s %s %s %s %s' % (coq_bool(req), coq_z(n), coq_z(lo), coq_z(hi), coq_bool(n_acc > 0)))
+                    obs_meta.append(dict(text=decl2 + text, impl=r[1], shape='ShAggAgg', value=n, l=lo, u=hi, accepted=n_acc > 0, required=req, phrase='between'))
+                elif c == 0:
+                    obs_cases.append('OSimple %s %s %s %s %s' % (coq_bool(req), coq_str(ph), coq_z(n), coq_z(b), coq_bool((n, b, 0) in acc)))
+                    obs_meta.append(dict(text=decl2 + text, impl=r[1], shape='ShAggAgg', value=n, threshold=b, accepted=(n, b, 0) in acc, required=req, phrase=ph))
+
     rep.sample(corr_meta[0] if corr_meta else None)
     rep.sample(corr_meta[-1] if corr_meta else None)
     rep.sample(obs_meta[len(obs_meta) // 2] if obs_meta else None)
@@ -224,7 +267,7 @@ def run(tier, seed):
     rep.cov['clingo_observations'] = len(obs_cases)
     rep.cov['correspondence_cases'] = len(corr_cases)
     rep.cov['exhaustive'] = tier == 'thorough'
-    rep.cov['distribution'] = dict(phrases=len(phs) + 1, shapes=5, polarities=2, thresholds=len(thresholds), between_pairs=len(bt_pairs))
+    rep.cov['distribution'] = dict(phrases=len(phs) + 1, shapes=6, polarities=2, thresholds=len(thresholds), between_pairs=len(bt_pairs))
     rep.assumptions += ['clingo 5.8.2 decides satisfiability of facts+constraint (external semantics)',
                         'Lark parses the template sentences as intended (checked indirectly: model text == implementation text)',
                         'hand-written control-flow model of convert_operation (tied by the correspondence stream)']
